@@ -32,7 +32,7 @@ def asbuilt():
             c = json.load(open(ev)); cov = c['coverage']; s = cov.get('solver', {})
             conc = [p['case'] for p in cov.get('per_case', []) if p.get('concrete_only')]
             out.append(f'*Last recorded run ({c["tier"]}, seed {c["seed"]}):* {cov["cases"]} cases, {cov["paths"]} paths (work-list remaining {cov["worklist_remaining"]}), '
-                       f'{cov["obligations"]} obligations, {cov["discharged"]} discharged, {cov["inconclusive_unknown"]} unknown, {cov["non_reproducing_models"]} non-reproducing, '
+                       f'{cov["obligations"]} obligations ({cov.get("obligations_solver_decided", "?")} decided by solver queries, {cov.get("obligations_folded_to_constant", "?")} folded to True by term simplification, {cov.get("concrete_only_obligations", 0)} from concrete-only cases {cov.get("concrete_only_cases", [])}), {cov["discharged"]} discharged, {cov["inconclusive_unknown"]} unknown, {cov["non_reproducing_models"]} non-reproducing, '
                        f'{cov["aborted_paths"]} aborted paths; solver queries {s.get("queries", "?")} ({s.get("q_interval", "?")} by intervals, {s.get("q_stage0", "?")} stage 0, {s.get("q_stageA", "?")} linear stage, '
                        f'{s.get("q_lin", "?")} linearised, {s.get("q_nl", "?")} nlsat), solver time {s.get("solver_s", "?")} s, wall {c["wall_s"]} s.\n')
     return '\n'.join(out)
